@@ -292,6 +292,20 @@ func (r *Reader) initFields() error {
 			if err != nil {
 				return err
 			}
+			if org.Type == "dir" {
+				// A hardlink to a directory would make the tree cyclic (e.g. "d/l" -> "d").
+				return fmt.Errorf("%q is a hardlink to the directory %q", ent.Name, org.Name)
+			}
+			for p := pdirName; ; p = parentDir(p) {
+				// Same for a link to any entry that is used as its ancestor (e.g. a
+				// regular file "d" together with "d/l" -> "d").
+				if pe, ok := r.m[p]; ok && pe == org {
+					return fmt.Errorf("%q is a hardlink to its ancestor %q", ent.Name, org.Name)
+				}
+				if p == "" {
+					break
+				}
+			}
 			org.NumLink++ // original entry is referenced by this ent.Name.
 			ent = org
 		}
